@@ -1416,23 +1416,50 @@ class Engine:
             # not a literal product(...) / combinations(...): the VALUE may still be "all pairs of a range" (e.g. the index
             # enumeration of a combinations group)
             v = self.eval_iter(s.iter, env)
-            if isinstance(v, VCombs2) and isinstance(s.target, ast.Tuple) and len(s.target.elts) == 2 \
-                    and all(isinstance(x, ast.Name) for x in s.target.elts) and len(spec['nest']) == 2:
+            if not isinstance(v, VProduct):
+                v = as_nest_factor(v)
+            if v is None:
+                return None
+            levels = []                 # (target name, iter ast) outermost first
+
+            def add_value(f, target):
                 self.nest_n = getattr(self, 'nest_n', 0) + 1
                 lo, hi = '__nest_lo{}'.format(self.nest_n), '__nest_hi{}'.format(self.nest_n)
-                env[lo], env[hi] = v.lo, v.hi
-                a, b = s.target.elts
-                inner = ast.For(target=ast.Name(id=b.id, ctx=ast.Store()), iter=ast.parse('range({} + 1, {})'.format(a.id, hi), mode='eval').body,
-                                body=list(s.body), orelse=[], lineno=s.lineno, col_offset=s.col_offset, end_lineno=s.end_lineno, end_col_offset=s.end_col_offset)
-                outer = ast.For(target=ast.Name(id=a.id, ctx=ast.Store()), iter=ast.parse('range({}, {})'.format(lo, hi), mode='eval').body,
-                                body=[inner], orelse=[], lineno=s.lineno, col_offset=s.col_offset, end_lineno=s.end_lineno, end_col_offset=s.end_col_offset)
-                ast.fix_missing_locations(outer)
-                self.synthetic_specs = getattr(self, 'synthetic_specs', {})
-                self.synthetic_specs[id(outer)] = (k, spec['nest'][0])
-                self.synthetic_specs[id(inner)] = (k, spec['nest'][1])
-                self.keep_alive = getattr(self, 'keep_alive', []) + [outer, inner]
-                return outer
-            return None
+                env[lo], env[hi] = f.lo, f.hi
+                if isinstance(f, VCombs2):
+                    if not (isinstance(target, ast.Tuple) and len(target.elts) == 2 and all(isinstance(x, ast.Name) for x in target.elts)):
+                        raise Unsupported('a pair enumeration needs a target (a, b)')
+                    a, b = target.elts
+                    levels.append((a.id, ast.parse('range({}, {})'.format(lo, hi), mode='eval').body))
+                    levels.append((b.id, ast.parse('range({} + 1, {})'.format(a.id, hi), mode='eval').body))
+                else:
+                    if not isinstance(target, ast.Name):
+                        raise Unsupported('range level needs a plain name target')
+                    levels.append((target.id, ast.parse('range({}, {})'.format(lo, hi), mode='eval').body))
+
+            if isinstance(v, VProduct):
+                if not (isinstance(s.target, ast.Tuple) and len(s.target.elts) == len(v.factors)):
+                    raise Unsupported('product(...) needs one target per factor')
+                for f, tgt in zip(v.factors, s.target.elts):
+                    add_value(f, tgt)
+            else:
+                add_value(v, s.target)
+            if len(spec['nest']) != len(levels):
+                raise Unsupported('loop #{}: {} nest levels declared, {} needed'.format(k, len(spec['nest']), len(levels)))
+            if s.orelse:
+                raise Unsupported('for/else over a product')
+            self.synthetic_specs = getattr(self, 'synthetic_specs', {})
+            body = list(s.body)
+            node = None
+            for lvl in range(len(levels) - 1, -1, -1):
+                tgt, it = levels[lvl]
+                node = ast.For(target=ast.Name(id=tgt, ctx=ast.Store()), iter=it, body=body, orelse=[], lineno=s.lineno, col_offset=s.col_offset,
+                               end_lineno=s.end_lineno, end_col_offset=s.end_col_offset)
+                ast.fix_missing_locations(node)
+                self.synthetic_specs[id(node)] = (k, spec['nest'][lvl])
+                self.keep_alive = getattr(self, 'keep_alive', []) + [node]
+                body = [node]
+            return node
         fn = self.eval(s.iter.func, env)
         imp = self.modinfo['imports']
 
@@ -3310,7 +3337,7 @@ def sf_mapcall(eng, node, g, n, m, index):
 
 
 SPEC_FUNCS = {
-    'combs2': lambda eng, node, lo, hi: VCombs2(toz(lo), toz(hi)), 'cvar': _wrap(specs.cvar), 'degsum': _wrap(specs.degsum),
+    'combs2': lambda eng, node, lo, hi: VCombs2(toz(lo), toz(hi)), 'cvar': _wrap(specs.cvar), 'degsum': _wrap(specs.degsum), 'gadj': _wrap(specs.gadj),
     'mapcall': sf_mapcall, 'mrow': _wrap(specs.mrow), 'mcol': _wrap(specs.mcol),
     'evnest': _wrap(specs.evnest), 'dedges': _wrap(specs.dedges),
     'yxdom': _wrap(specs.yxdom),
@@ -3492,6 +3519,7 @@ def b_list(eng, node, v=None):
         t = z3.Int('iota!j')
         a = VArr(z3.simplify(zmax(toz(v.hi) - toz(v.lo), z3.IntVal(0))), z3.Lambda([t], toz(v.lo) + t))
         a.iota = toz(v.lo)
+        a.iota_state = (a.length, a.arr)          # the attribute is meaningful only while the list is unmodified (see iota_base)
         return a
     if isinstance(v, VArr):
         return VArr(v.length, v.arr)
@@ -3656,6 +3684,8 @@ BUILTINS = {'print': b_print, 'str': b_str, 'bool': b_bool, 'set': b_set, 'all':
 
 
 def lib_combinations(eng, node, seq, k):
+    if iota_base(seq) is not None:
+        seq = VRange(seq.iota, z3.simplify(seq.iota + toz(seq.length)), 1)       # list(range(lo, hi)), unmodified
     if isinstance(seq, VRange) and seq.step == 1 and (isinstance(seq.lo, int) and seq.lo == 0) and not isinstance(seq.hi, int):
         return VSeq(specs.idxcombs(toz(seq.hi), toz(k)))
     if isinstance(seq, VRange) and seq.step == 1:
@@ -3689,7 +3719,29 @@ def lib_product(eng, node, *args, repeat=1):
         return VSeq(specs.signvecsm(toz(repeat)))
     if all(isinstance(a, VTuple) for a in args) and isinstance(repeat, int):
         return VTuple([VTuple(list(c)) for c in itertools.product(*[a.items for a in args], repeat=repeat)], 'list')
+    if repeat == 1 and len(args) >= 2 and all(as_nest_factor(a) is not None for a in args):
+        return VProduct([as_nest_factor(a) for a in args])
     raise Unsupported('product of symbolic sequences')
+
+
+class VProduct:
+    """itertools.product of ranges / pair enumerations, kept lazily: only a `nest` loop can iterate it"""
+
+    def __init__(self, factors):
+        self.factors = factors
+
+
+def as_nest_factor(v):
+    """VRange (step 1) / VCombs2 view of a value that enumerates a range or all pairs a < b of a range, else None"""
+    if isinstance(v, VCombs2) or (isinstance(v, VRange) and v.step == 1):
+        return v
+    if iota_base(v) is not None:
+        return VRange(v.iota, z3.simplify(v.iota + toz(v.length)), 1)
+    if isinstance(v, VSeq) and z3.is_app(v.term) and v.term.decl().name() == 'combs' and z3.is_int_value(v.term.arg(1)) \
+            and v.term.arg(1).as_long() == 2 and z3.is_app(v.term.arg(0)) and v.term.arg(0).decl().name() == 'apseq':
+        lo, n = v.term.arg(0).arg(0), v.term.arg(0).arg(1)
+        return VCombs2(lo, z3.simplify(lo + n))          # combinations(range(lo, lo+n), 2) as a value
+    return None
 
 
 LIBRARY = {'itertools.combinations': lib_combinations, 'itertools.product': lib_product, 'functools.reduce': lib_reduce,
@@ -3842,11 +3894,19 @@ def lib_random_choice(eng, node, seq):
     return c
 
 
+def iota_base(v):
+    """lo if v is still the unmodified list(range(lo, hi)) it was created as, else None"""
+    st = getattr(v, 'iota_state', None)
+    if isinstance(v, VArr) and st is not None and v.length is st[0] and v.arr is st[1]:
+        return v.iota
+    return None
+
+
 def lib_random_shuffle(eng, node, lst):
     """demonic random.shuffle: leaves some permutation of the list in place"""
     if not isinstance(lst, VArr):
         raise Unsupported('random.shuffle on {!r}'.format(lst))
-    base = getattr(lst, 'iota', None)
+    base = iota_base(lst)
     new = eng.fresh('shuffled', lst.arr.sort())
     if base is not None:
         eng.pc.append(specs.isperm(new, toz(lst.length), base))     # a permutation of base..base+n-1 stays one
